@@ -385,7 +385,11 @@ Section LastSteps.
   Lemma to_last_steps : verify_authentic_timestamp i =
     match ts_loop lo hi (i_chain i) 0%N with
     | Some w => Failed w
-    | None => match rev_check (k_rev (i_tok i)) with Some w => Failed w | None => Passed end
+    | None =>
+        match shape_check (k_tsalen (i_tok i)) (k_rev (i_tok i)) with
+        | Some w => Failed w
+        | None => match rev_check (k_rev (i_tok i)) with Some w => Failed w | None => Passed end
+        end
     end.
   Proof.
     rewrite (vt_unfold i W S). apply applies_iff in A. rewrite A. unfold countersig.
@@ -410,8 +414,11 @@ Section LastSteps.
 
   Hypothesis P9 : Forall (Inside lo hi) (i_chain i).
 
-  Lemma to_rev_step : verify_authentic_timestamp i =
-    match rev_check (k_rev (i_tok i)) with Some w => Failed w | None => Passed end.
+  Lemma to_shape_step : verify_authentic_timestamp i =
+    match shape_check (k_tsalen (i_tok i)) (k_rev (i_tok i)) with
+    | Some w => Failed w
+    | None => match rev_check (k_rev (i_tok i)) with Some w => Failed w | None => Passed end
+    end.
   Proof.
     rewrite to_last_steps.
     pose proof (ts_loop_spec lo hi (i_chain i) 0%N) as TS.
@@ -421,7 +428,19 @@ Section LastSteps.
   Qed.
 
   Lemma step_rev_error : k_rev (i_tok i) = VErr -> verify_authentic_timestamp i = Failed WRevErr.
-  Proof. intros R. rewrite to_rev_step, R. reflexivity. Qed.
+  Proof. intros R. rewrite to_shape_step, R. reflexivity. Qed.
+
+  (* the validator answered with one non-nil result per certificate of the TSA chain *)
+  Hypothesis P10 : shape_ok (k_tsalen (i_tok i)) (k_rev (i_tok i)) = true.
+
+  Lemma to_rev_step : verify_authentic_timestamp i =
+    match rev_check (k_rev (i_tok i)) with Some w => Failed w | None => Passed end.
+  Proof.
+    rewrite to_shape_step.
+    pose proof (shape_check_spec (k_tsalen (i_tok i)) (k_rev (i_tok i))) as SH.
+    destruct (shape_check (k_tsalen (i_tok i)) (k_rev (i_tok i))) as [w|]; [|reflexivity].
+    destruct SH as [F _]. congruence.
+  Qed.
 
   Lemma step_revoked_names : forall rs, k_rev (i_tok i) = VRes rs -> In RRevoked rs ->
     exists k, nth_error rs k = Some RRevoked /\ ~ In RRevoked (firstn k rs) /\
@@ -476,4 +495,39 @@ Proof.
     rewrite <- ST. unfold model2.
     destruct (enforced (i_aexp i) && negb (verify_expiry te (i_expiry i))); cbn [o_ts];
       split; try reflexivity; discriminate.
+Qed.
+
+(* ================= "unrevoked TSA" at full strength, no contract on the validator ================= *)
+
+(* whatever the revocation validator answers: if the authentic-timestamp validation passes
+   while timestamp verification applies, the validator reported exactly one result per
+   certificate of the TSA chain and every one of them is OK or non-revokable *)
+Theorem unrevoked_tsa : forall i, i_scheme i = X509 -> Applies i ->
+  verify_authentic_timestamp i = Passed ->
+  exists rs, k_rev (i_tok i) = VRes rs /\
+    List.length rs = N.to_nat (k_tsalen (i_tok i)) /\
+    forall j, (j < N.to_nat (k_tsalen (i_tok i)))%nat ->
+      nth_error rs j = Some ROK \/ nth_error rs j = Some RNonRevokable.
+Proof.
+  intros i S A P. destruct (passes_only_if i P) as (_ & _ & T). specialize (T S A).
+  destruct T as (_ & _ & _ & _ & _ & _ & _ & _ & _ & rs & R & L & F).
+  exists rs. split; [exact R|]. assert (L' : List.length rs = N.to_nat (k_tsalen (i_tok i))) by lia.
+  split; [exact L'|]. intros j Hj. rewrite <- L' in Hj.
+  destruct (nth_error rs j) as [r|] eqn:E; [|apply nth_error_None in E; lia].
+  rewrite Forall_forall in F. destruct (F r (nth_error_In _ _ E)) as [-> | ->]; auto.
+Qed.
+
+(* the answers that used to slip through: a vector of another length than the TSA chain
+   (shorter: passed; longer: index out of range) or with a nil entry never passes *)
+Theorem bad_shape_never_passes : forall i rs, i_scheme i = X509 -> Applies i ->
+  k_rev (i_tok i) = VRes rs ->
+  (N.of_nat (List.length rs) <> k_tsalen (i_tok i) \/ In RNil rs) ->
+  verify_authentic_timestamp i <> Passed.
+Proof.
+  intros i rs S A R Bad P. destruct (unrevoked_tsa i S A P) as (rs' & R' & L & F).
+  rewrite R in R'. inversion R'; subst rs'. destruct Bad as [NE | Hin]; [lia|].
+  apply In_nth_error in Hin. destruct Hin as [j Hj].
+  assert (Hlt : (j < N.to_nat (k_tsalen (i_tok i)))%nat).
+  { rewrite <- L. apply nth_error_Some. congruence. }
+  destruct (F j Hlt) as [E|E]; rewrite Hj in E; discriminate.
 Qed.
